@@ -4,8 +4,6 @@ NOT_YET = "check not built yet in this round (design in DESIGN.md section 6); wi
 
 # checks that exist but are temporarily not claimed (reason shown under not_applicable)
 PENDING = {
-    "C07": "check exists (harness/props/c07.py, Props/C07.lean) but its model is being brought in line with fix commit 3d8c7c9b in /repo; claimed again once correspondence holds",
-    "C15": "check exists (harness/props/c15.py, Props/C15.lean) but its model is being brought in line with fix commit 94b833ce in /repo; claimed again once correspondence holds",
 }
 
 # pid -> dict(technique, level_text, level_note, design_ref)   (only claimed properties)
@@ -90,7 +88,7 @@ _c("C07",
    "number of self-pairings (hill-climb terminates; for two-way crosses no self-pairing at all); integer/binary encodings: support and count bounds; mate selection rows are cross-map rows; the cross map lists exactly the ascending k-tuples once; "
    "the sorting optimiser returns the top-k set (unique and permutation-equivariant when values are distinct, value-equivariant with ties); multi-objective choice = first argmax of weighted transformed front.",
    "stochastic_universal_sampling is an oracle input here (C17 owns it); objective evaluation is C05's; stochastic optimisers replaced by scripted fronts (C06). Partial: integer_share_partial, real_xconfig_partial, mate_real_xconfig_partial, "
-   "truncation_unique_partial, truncation_perm_equivariant_partial, uc_integer_bounds_partial. Known findings: D7 (SUS pointer count, C17's), D20 (integer remainder drawn from repeated options: shares off by up to d_i), "
+   "truncation_unique_partial, truncation_perm_equivariant_partial. Known findings: D7 (SUS pointer count, C17's), D20 (integer remainder drawn from repeated options: shares off by up to d_i), "
    "D21 (UC integer problem bounds raise for ncross >= 2).")
 _c("C18",
    "31 theorems (Props/C18.lean): block counts per chromosome are >= 1 and sum to the request for any positions; every marker gets one label, labels are monotone along the genome and chromosome ranges are disjoint; haplobin_bounds is the run-length "
@@ -110,5 +108,11 @@ _c("C10",
 _c("C15",
    "33 theorems (Props/C15.lean): unscale(from_numpy(raw)) = raw for every matrix and ANY sqrt function incl. constant and all-NaN traits; NaN stays NaN and does not influence other taxa; stored traits are centred with unit variance (constant trait: scale 1); "
    "tmax/tmin/trange/tmean/targmax/targmin (unscale=True) equal numpy's on the raw trait; select_taxa entry law; histories of select/delete/insert/adjoin (+ in-place reorder/remove for raw values) refine the same edits on raw data; DenseScaledMatrix transform/untransform/rescale laws.",
-   "numpy.sqrt through its contract; taxa labels are C03's. Partial: history_*_partial (the four class-defined ops), tstd/tvar_unscaled_partial. Known findings: D9 (tstd/tvar of a constant trait = 1), D23 (inherited concat_taxa concatenates standardised values), "
+   "numpy.sqrt through its contract; taxa labels are C03's. Partial: history_*_partial (the four class-defined ops). tstd/tvar are full for the fixed code (D9 fixed in /repo). Known findings: D23 (inherited concat_taxa concatenates standardised values), "
    "D24 (inherited in-place append/incorp use the receiver's location/scale), D25 (in-place remove leaves location/scale stale), D26 (constant trait with inexact float mean gets scale 1e-17) - counterexamples proved.")
+_c("C05",
+   "39 theorems (Props/C05.lean) over any ordered field and any square-root function: for every duplicate-free decision the subset, integer-count, binary-indicator and real (1/k) encodings give the same latent vector for every criterion family "
+   "(EBV/GEBV/wGEBV/gwGEBV/random/EMBV/UC/OHV linear forms, OCS, mean relationship, mean heterozygosity, L1, L2, family, PAFD/PAU/MOGS); order independence for all families; the reported objectives are weights times the user transformation of the latent vector; "
+   "norm via factor (C^T C = K => |Cc|^2 = c^T K c); cross map lists exactly the parent tuples once; factory data rows follow the taxa; UC / EMBV / OHV block-maximum definitions; the repaired PAU class equals its definition for every target frequency.",
+   "Cholesky/jitter under the contract C^T C = K (re-checked on every factory case); variance factories stubbed (C12); haplotype bounds observed (C18); numpy.power/arcsin values handed to the model. "
+   "Partial: scale_invariant_partial and encodings_agree_real_total_partial (outside the 1e-10 total guard; counterexample inside). D50-D54 fixed in /repo (pre-repair counterexamples kept).")
